@@ -472,7 +472,7 @@ class HistoryStream(Stream):
     BYTES_BODIES = [b for b in BODIES if all(i[0] == "b" for i in b[1])]
     EVS = [["cb"], ["getdata"], ["makeseq"], ["freeze"], ["setdata", "787980"], ["close"], ["wsgi", "GET"], ["wsgi", "HEAD"], ["take", 1], ["take", 99], ["iterclose"]]
     corpus = [
-        # F05b (known): freeze() consumes a closable iterator without taking over its close
+        # F05b (repaired by 41b0631): freeze() used to consume a closable iterator without taking over its close
         {"status": ["i", 200], "dp": 0, "body": ["C", [["b", "6162"]]], "implicit": 1, "auto": 1, "hinit": [], "evs": [["cb"], ["freeze"], ["wsgi", "GET"], ["take", 99], ["iterclose"]]},
         # call_on_close after get_app_iter; a body closed early; close() twice
         {"status": ["i", 200], "dp": 0, "body": ["C", [["b", "6162"], ["b", "63"]]], "implicit": 1, "auto": 1, "hinit": [], "evs": [["cb"], ["wsgi", "GET"], ["cb"], ["take", 1], ["iterclose"]]},
@@ -706,6 +706,11 @@ class HistoryStream(Stream):
             # replaced or closed what the server holds
             full = ["take", 99] in after and not any(e[0] in ("getdata", "makeseq", "freeze", "setdata", "iterclose") for e in after[: after.index(["take", 99])])
             preset = any(k.lower() == "content-length" for k, _ in case["hinit"])
+            # with automatically_set_content_length off, set_data() does not touch an earlier
+            # Content-Length: the application took the header over, nothing here was computed
+            # for the body that is sent
+            if not case["auto"] and "setdata" in evs[:last]:
+                preset = True
             if cl and not preset and not bodyless and full and evs.count("wsgi") == 1:
                 if len(cl) != 1 or not cl[0].isdigit() or int(cl[0]) != len(got):
                     return f"computed Content-Length {cl} but {len(got)} body bytes were produced"
@@ -720,7 +725,7 @@ class HistoryStream(Stream):
                 method = wsgi[2]
                 bodyless = method == "HEAD" or 100 <= code < 200 or code in (204, 304)
                 pre = ""
-                # narrow shapes of the two known findings
+                # narrow shape of the known finding
                 # F05: the raw iterable is handed out; its own close runs (when it still is the
                 # closable stream: make_sequence before that turns it into a list and moves the
                 # close into the callbacks) and no callback runs
@@ -728,16 +733,11 @@ class HistoryStream(Stream):
                 raw_only = ["wrapped"] if (case["body"][0] == "C" and not converted) else []
                 if case["dp"] and not bodyless and want != raw_only and sorted(log) == raw_only:
                     pre = "F05: "
-                elif "freeze" in evs[:upto] and case["body"][0] == "C" and sorted(log) == sorted(w for w in want if w != "wrapped"):
-                    # freeze() came before anything else consumed the closable body
-                    first = min(i for i, e in enumerate(evs) if e in ("freeze", "getdata", "makeseq"))
-                    if evs[first] == "freeze" or (evs[first] == "getdata" and (case["dp"] or not case["implicit"])):
-                        pre = "F05b: "
                 return pre + f"close log {sorted(log)} != every callback and the wrapped close exactly once {sorted(want)}"
         return None
 
     def finding_key(self, case, what):
-        m = re.match(r"(F05b?): ", what)
+        m = re.match(r"(F05): ", what)
         return m.group(1) if m else None
 
     def nontrivial(self, case, real_out):
@@ -859,7 +859,7 @@ class FromAppStream(Stream):
 
 CHECK = Check(
     prop="C05",
-    gen=["Containers", "Views", "ResponseProps", "CacheSetTable", "Response", "Http", "PyFns_Internal", "PyFns_Range", "PyFns_Response"],
+    gen=["Containers", "Views", "ResponseProps", "CacheSetTable", "Response", "Http", "PyFns_Internal", "PyFns_Range", "PyFns_Response", "PyFns_Http", "PyFns_HttpDict", "UrlTables"],
     modules=["WzVerif.Props.C05", "WzVerif.Props.C05T"],
     streams=[WsgiStream(), HistoryStream(), FromAppStream()],
     assumptions=[
@@ -868,7 +868,7 @@ CHECK = Check(
         "str(value) of non-text header values and dump_options_header for the keyword form of add/set are applied by the caller of the model",
         "the close model is an effect log (which close actions the returned iterable's close() runs); generator finalisation is observed through inspect.getgeneratorstate",
         "known finding F05: Response(direct_passthrough=True) returns the raw iterable for non-bodyless responses, call_on_close callbacks never run",
-        "known finding F05b: Response.freeze() consumes a streamed body whose iterable has close() without taking the close over (make_sequence does): the iterable's close never runs (negation witness freeze_loses_wrapped_close_full_false; freeze_partial covers the other body shapes)",
+        "F05b (Response.freeze() dropped the close of a consumed closable iterable) is repaired by 41b0631: freeze is a quiet event of close_exactly_once_history, the former failing input is a corpus regression case (freeze_keeps_wrapped_close_regression)",
         "histories on one response object (Model.Response.nextEv: call_on_close before/after get_wsgi_response, get_data, make_sequence, freeze, set_data, close()/with, the server pulling any prefix and closing; implicit_sequence_conversion / automatically_set_content_length on or off) are tied to the code by stream response-history; generate_etag (SHA-1) is opaque (the harness supplies the digest); generator and file-wrapper bodies are exercised by stream wsgi-response only (their close is observed through CPython finalisation, not counted)",
         "Response.from_app / force_type(app, environ) (test.run_wsgi_app): the outer body is modelled as a closable stream whose close is the inner ClosingIterator's (driver fromapp, stream from-app); Response.__call__ is get_wsgi_response + start_response (no state of its own)",
         "int(code_str) in _clean_status is C06's Http.pyInt (white space, sign, '_' separators; exact on latin-1 text)",
@@ -879,8 +879,8 @@ CHECK = Check(
 )
 
 MANIFEST = {
-    "level_text": "Machine-checked Lean 4 theorems: every Headers mutator history keeps all stored values CR/LF-free and a mutator given such a value fails (atomic ones leave the list unchanged); body suppression and Content-Length stripping decided by decide +kernel over a table regenerated by exhaustively evaluating the real get_wsgi_headers / get_app_iter over status 100..599 x method x preset x body kind; computed Content-Length = bytes of the encoded items; Location / Content-Location handed to the server are ASCII for every input (location_ascii, on top of C15's iriToUri_ascii); close-exactly-once in an effect model over whole histories of a response object (callbacks registered before and after get_wsgi_response, get_data / make_sequence on the side, any prefix pulled; partial: direct passthrough excluded, F05; freeze() of a closable streamed body excluded, F05b) and through Response.from_app / force_type. Model tied to the code by the wsgi-response, response-history and from-app correspondence streams; the property oracle runs on the real WSGI output.",
-    "level_note": "Trusted: Lean kernel; extract.py; harness; urlsplit/IDNA, urlunsplit, urljoin opaque with the assumed ASCII laws (validated on every stream case), quoting = C15 model. Known findings F05, F05b.",
+    "level_text": "Machine-checked Lean 4 theorems: every Headers mutator history keeps all stored values CR/LF-free and a mutator given such a value fails (atomic ones leave the list unchanged); body suppression and Content-Length stripping decided by decide +kernel over a table regenerated by exhaustively evaluating the real get_wsgi_headers / get_app_iter over status 100..599 x method x preset x body kind; computed Content-Length = bytes of the encoded items; Location / Content-Location handed to the server are ASCII for every input (location_ascii, on top of C15's iriToUri_ascii); close-exactly-once in an effect model over whole histories of a response object (callbacks registered before and after get_wsgi_response, get_data / make_sequence on the side, any prefix pulled; freeze() included; partial: direct passthrough excluded, F05) and through Response.from_app / force_type. Model tied to the code by the wsgi-response, response-history and from-app correspondence streams; the property oracle runs on the real WSGI output.",
+    "level_note": "Trusted: Lean kernel; extract.py; harness; urlsplit/IDNA, urlunsplit, urljoin opaque with the assumed ASCII laws (validated on every stream case), quoting = C15 model. Known finding F05.",
     "technique": "Lean 4 proof (induction over mutator histories, decide +kernel over a regenerated exhaustive table, effect-log model) + model/code correspondence",
     "design_ref": "DESIGN.md section 4, C05",
 }
